@@ -79,6 +79,32 @@ fn snap_of(w: &SimWorld, entity: Entity) -> Snap {
     }
 }
 
+/// The lone animator of the second component type: (state, position, component value if any).
+type LoneSnap = (AnimationState, Duration, Option<f32>);
+
+fn lone_snap(w: &SimWorld) -> Option<LoneSnap> {
+    w.lone_other.map(|x| {
+        let e = w.app.world.entity(x);
+        let an = e.get::<Animator<Other>>().expect("lone animator");
+        (an.state(), an.timeline_position, e.get::<Other>().map(|o| o.x))
+    })
+}
+
+/// The entity whose animator arrives late: (animator state and position if it is there yet,
+/// component, selector key).
+type LateSnap = (Option<(AnimationState, Duration)>, Target, Option<Key>);
+
+fn late_snap(w: &SimWorld) -> Option<LateSnap> {
+    w.late_animator.map(|x| {
+        let e = w.app.world.entity(x);
+        (
+            e.get::<Animator<Target>>().map(|a| (a.state(), a.timeline_position)),
+            e.get::<Target>().expect("target").clone(),
+            e.get::<AnimationSelector<Key, Target>>().map(|s| s.timeline_key),
+        )
+    })
+}
+
 fn hash_snap(h: &mut ObsHash, s: &Snap) {
     h.u32(rank(s.state) as u32);
     h.u64(s.pos.as_secs());
@@ -331,6 +357,10 @@ fn execute(scn: &BScn, property: &str) -> RunOutcome {
     // never played; excluded from the Ended clauses until the next reset / re-target
     let mut stale_ended = false;
     let mut chain_present = true;
+    // side entities
+    let lone_twin = cfg.lone_other.as_ref().map(|l| build_other_tl(&l.spec));
+    let mut lone_had_component_when_it_ended = false;
+    let mut late_twin: Option<Twin> = None;
     let chain_lookup = |k: Key| -> Option<Key> {
         cfg.chain
             .as_ref()
@@ -472,6 +502,53 @@ fn execute(scn: &BScn, property: &str) -> RunOutcome {
             }
         }
         stale_ended = swapped_while_ended;
+        // ---- side entities: their own assembly schedule ----------------------------------------
+        let mut late_touched = false;
+        {
+            let r = catch(|| {
+                if let (Some(l), Some(x)) = (&cfg.lone_other, w.lone_other) {
+                    if l.insert_component_at == Some(fi) {
+                        w.app.world.entity_mut(x).insert(Other::default());
+                    }
+                }
+                if let (Some(l), Some(x)) = (&cfg.late_animator, w.late_animator) {
+                    if l.insert_at == fi {
+                        let an = match l.tl {
+                            Some(i) => Animator::<Target>::with_timeline(build_target_merged(&cfg.tls[i])),
+                            None => Animator::<Target>::new(),
+                        };
+                        w.app.world.entity_mut(x).insert(an);
+                    }
+                    if l.touch_at.contains(&fi) {
+                        let mut e = w.app.world.entity_mut(x);
+                        if let Some(mut sel) = e.get_mut::<AnimationSelector<Key, Target>>() {
+                            let k = sel.timeline_key;
+                            sel.timeline_key = k;
+                        }
+                    }
+                }
+            });
+            if let Err(p) = r {
+                bail_panic!(p, fi, "assembling a side entity");
+            }
+            if let Some(l) = &cfg.lone_other {
+                if l.insert_component_at == Some(fi) {
+                    out.count("op.lone_second_type_component_inserted_late");
+                }
+            }
+            if let Some(l) = &cfg.late_animator {
+                if l.insert_at == fi {
+                    late_twin = l.tl.map(|i| Twin::new(cfg, i, None));
+                    out.count("op.animator_inserted_after_selector");
+                }
+                if l.touch_at.contains(&fi) {
+                    late_touched = true;
+                    out.count("op.late_animator_entity_current_key_reassigned");
+                }
+            }
+        }
+        let lone_before = lone_snap(&w);
+        let late_before = late_snap(&w);
         let before = snap(&w);
         if user_set_key && before.key != key_before_ops {
             user_changed_key = true;
@@ -507,6 +584,24 @@ fn execute(scn: &BScn, property: &str) -> RunOutcome {
         }
         let after = snap(&w);
         hash_snap(&mut h, &after);
+        let lone_after = lone_snap(&w);
+        let late_after = late_snap(&w);
+        if let Some((st, p, x)) = lone_after {
+            h.u32(rank(st) as u32 + 200);
+            h.u64(p.as_nanos() as u64);
+            h.f32(x.unwrap_or(-1.0));
+        }
+        if let Some((an, c, k)) = &late_after {
+            if let Some((st, p)) = an {
+                h.u32(rank(*st) as u32 + 300);
+                h.u64(p.as_nanos() as u64);
+            }
+            h.f32(c.a);
+            h.f32(c.b);
+            h.u32(c.n as u32);
+            h.u32(c.k as u32);
+            h.u32(k.map(|k| k as u32).unwrap_or(999));
+        }
         if std::env::var("BEVY_SIM_TRACE").is_ok() {
             eprintln!("frame {fi}: st={:?} pos={:?} key={:?} acted={:?} comp={} other={:?} single={}", after.state, after.pos, after.key, after.acted, tbrief(&after.comp), after.other, update_is_single_threaded(&w.app));
         }
@@ -594,6 +689,118 @@ fn execute(scn: &BScn, property: &str) -> RunOutcome {
                     v = Some(viol($prop, $clause, fi, format!($($arg)*), format!("{} fault={}", $clause, frame.fault)));
                 }
             };
+        }
+
+        // ======================================================================================
+        // side entities (C18: every enabled animator keeps time and announces its state changes,
+        // whatever else exists in the world; C19: re-assigning the current key restarts nothing)
+        // ======================================================================================
+        if check18 {
+            if let (Some(x), Some((sb, pb, xb)), Some((sa, pa, xa)), Some(l), Some(tw)) = (w.lone_other, lone_before, lone_after, &cfg.lone_other, &lone_twin) {
+                out.count("probe.lone_second_type_animator_frame");
+                if xb.is_none() {
+                    out.count("probe.frame_without_any_component_of_the_animated_type");
+                }
+                let theirs: Vec<AnimationState> = events.iter().filter(|(e, _)| *e == x).map(|(_, s)| *s).collect();
+                let exp: Vec<AnimationState> = if sa != sb { vec![sa] } else { vec![] };
+                if theirs != exp {
+                    fail!("C18", "events-do-not-match-state-changes", "frame {fi}: the lone Animator<Other> went {sb:?} -> {sa:?}; events sent for it: {theirs:?}, expected {exp:?}");
+                }
+                let want_pos = if sa == AnimationState::Ended { pb } else { pb + delta };
+                if pa != want_pos {
+                    fail!("C18", "position-not-conserved", "frame {fi}: the lone Animator<Other> (component of that type present in the world: {}): position {pb:?} -> {pa:?} over a frame of {delta:?} ending in state {sa:?}", xb.is_some());
+                }
+                // state as a function of the position at the start of the frame
+                let delay = l.spec.delay as f64;
+                let cycles = match l.spec.repeat {
+                    Rep::None => 1.0,
+                    Rep::Times(n) => n as f64 + 1.0,
+                    Rep::Infinite => f64::INFINITY,
+                };
+                let total = delay + l.spec.duration as f64 * cycles;
+                let pbs = pb.as_secs_f32() as f64;
+                if !band(pbs, delay) && !band(pbs, total) {
+                    let want = if sb == AnimationState::Ended || pbs >= total {
+                        AnimationState::Ended
+                    } else if pbs >= delay {
+                        AnimationState::Playing
+                    } else {
+                        AnimationState::Waiting
+                    };
+                    if sa != want {
+                        fail!("C18", "state-does-not-follow-position", "frame {fi}: the lone Animator<Other> (delay {delay}, total {total}) was {sb:?} at {pb:?} and is {sa:?} after the frame; expected {want:?}");
+                    }
+                }
+                if let (Some(_), Some(xa)) = (xb, xa) {
+                    let eval = |p: Duration| {
+                        let mut o = Other::default();
+                        tw.update(&mut o, p.as_secs_f32());
+                        o.x
+                    };
+                    if sa == AnimationState::Playing && xa != eval(pb) && xa != eval(pa) {
+                        fail!("C18", "playing-component-stale", "frame {fi}: the late-completed Animator<Other> is Playing at {pa:?} but the component is {xa}; the timeline gives {} / {}", eval(pb), eval(pa));
+                    }
+                    if sa == AnimationState::Ended && sb != AnimationState::Ended {
+                        lone_had_component_when_it_ended = true;
+                    }
+                    if sa == AnimationState::Ended && lone_had_component_when_it_ended && (xa - 1.0).abs() > 1e-5 {
+                        fail!("C18", "ended-without-terminal-values", "frame {fi}: the late-completed Animator<Other> reports Ended but the component is {xa} (terminal value 1)");
+                    }
+                }
+            }
+        }
+        if check18 || check19 {
+            let p = if check19 { "C19" } else { "C18" };
+            if let (Some(x), Some((anb, cb, _)), Some((ana, ca, ka))) = (w.late_animator, &late_before, &late_after) {
+                let theirs: Vec<AnimationState> = events.iter().filter(|(e, _)| *e == x).map(|(_, s)| *s).collect();
+                if *ka != Some(cfg.initial_key) {
+                    fail!("C19", "key-changed-without-cause", "frame {fi}: the selector of the entity whose animator arrived late (no chain, key never changed by the user) now has key {ka:?}");
+                }
+                match (anb, ana) {
+                    (Some((sb, pb)), Some((sa, pa))) => {
+                        out.count("probe.late_animator_frame");
+                        if late_touched {
+                            out.count("probe.current_key_reassigned_after_animator_arrived_late");
+                        }
+                        let lspec: Option<&MergedSpec> = late_twin.as_ref().map(|t| &cfg.tls[t.tl_index]);
+                        if rank(*sa) < rank(*sb) || pa < pb {
+                            fail!(p, "reassigning-current-key-restarted", "frame {fi}: entity whose animator arrived after its selector (current key re-assigned before this frame: {late_touched}): the animator went {sb:?} @ {pb:?} -> {sa:?} @ {pa:?} although the key never changed");
+                        }
+                        let want_pos = if *sa == AnimationState::Ended || lspec.is_none() { *pb } else { *pb + delta };
+                        if *pa != want_pos {
+                            fail!(p, "position-not-conserved", "frame {fi}: entity whose animator arrived after its selector: position {pb:?} -> {pa:?} over a frame of {delta:?} ending in state {sa:?}");
+                        }
+                        let exp: Vec<AnimationState> = if sa != sb { vec![*sa] } else { vec![] };
+                        if theirs != exp {
+                            fail!(p, "events-do-not-match-state-changes", "frame {fi}: entity whose animator arrived after its selector went {sb:?} -> {sa:?}; events sent for it: {theirs:?}, expected {exp:?}");
+                        }
+                        if let Some(f) = unkeyed_changed(lspec, cb, ca) {
+                            fail!(p, "unanimated-field-written", "frame {fi}: entity whose animator arrived after its selector: field {f} changed although the animator's own timeline does not keyframe it (the selector's timeline was installed?)");
+                        }
+                        match (&late_twin, lspec) {
+                            (Some(t), Some(m)) => {
+                                if *sa == AnimationState::Playing {
+                                    let c1 = t.eval(cb, *pb);
+                                    let c2 = t.eval(cb, *pa);
+                                    if !keyed_equal(m, ca, &c1) && !keyed_equal(m, ca, &c2) {
+                                        fail!(p, "playing-component-stale", "frame {fi}: entity whose animator arrived after its selector is Playing at {pa:?} but the component is {}; the timeline it was built with gives {} / {}", tbrief(ca), tbrief(&c1), tbrief(&c2));
+                                    }
+                                }
+                            }
+                            _ => {
+                                if *sa != AnimationState::None || ca != cb {
+                                    fail!(p, "no-timeline-not-idle", "frame {fi}: entity whose timeline-less animator arrived after its selector: state {sa:?}, component {} -> {}", tbrief(cb), tbrief(ca));
+                                }
+                            }
+                        }
+                    }
+                    _ => {
+                        if ca != cb || !theirs.is_empty() {
+                            fail!(p, "entity-without-animator-written", "frame {fi}: an entity that has a selector but no Animator yet changed ({} -> {}) or got events {theirs:?}", tbrief(cb), tbrief(ca));
+                        }
+                    }
+                }
+            }
         }
 
         // ======================================================================================
@@ -777,7 +984,7 @@ fn execute(scn: &BScn, property: &str) -> RunOutcome {
             if got_sorted != exp_sorted {
                 fail!("C18", "events-do-not-match-state-changes", "frame {fi}: state {state_base:?} -> {:?} (second animator {:?} -> {:?}); events sent: {mine:?}, expected {expected:?}", after.state, before.other.map(|o| o.0), after.other.map(|o| o.0));
             }
-            if cfg.orphan.is_none() && events.iter().any(|(e, _)| *e != w.entity && Some(*e) != w.extra && Some(*e) != w.mirror) {
+            if cfg.orphan.is_none() && events.iter().any(|(e, _)| *e != w.entity && Some(*e) != w.extra && Some(*e) != w.mirror && Some(*e) != w.lone_other && Some(*e) != w.late_animator) {
                 fail!("C18", "event-for-wrong-entity", "frame {fi}: an event names an entity without an animator");
             }
             if target_changed && after.state == AnimationState::Ended {
